@@ -273,3 +273,32 @@ MANIFEST_TEXT["C10"] = {
     "technique": "stateful property-based testing (rapid), model-based oracle over complete probe sets",
 }
 NOT_APPLICABLE[:] = [e for e in NOT_APPLICABLE if e["property_id"] not in CHECKS]
+
+CHECKS["C13"] = {
+    "test": "TestC13",
+    "level": "fault_enumeration",
+    "quick": {"shards": 8, "checks": 300},
+    "thorough": {"shards": 16, "checks": 2500},
+    "rule": "a rapid-generated step sequence (block / undo / Verify(remember); for a partial forest also Prune and Ingest) brings a Pollard, a full or a partial "
+            "MapPollard (generated TotalRows) to a reachable state that is first checked against the reference model. Then, per state, enumerated: (a) round trip through "
+            "six reader chunkings (whole, one byte, halves, data-with-EOF, rapid-drawn chunk sizes, the same with EOF on the last chunk): no error, reported "
+            "and consumed bytes = stream length = Pollard.SerializeSize(), restored instance equals the model (complete observation set; C09 sandwich for a "
+            "partial forest) and the original (GetHash everywhere, every leaf position, stored maps incl. remember flags); (b) EVERY strict prefix of the "
+            "stream when it has at most 2500 (thorough 6000) bytes, otherwise the first and last 700 offsets plus +-40 around 8-24 rapid-drawn offsets: restore "
+            "must return an error or a state identical to the original, never panic, and report no more bytes than it consumed (every 7th prefix also through "
+            "the data-with-EOF and chunked readers); (c) a sink failing at each of the same offsets, refusing the crossing write completely or accepting part "
+            "of it: non-nil error, reported count <= accepted bytes (== for the refusing sink), no panic, original unchanged; (d) the original and all six "
+            "restored copies are driven through 4-7 further generated steps (>=3 blocks and an undo) and compared with the model and with each other after "
+            "every step. Non-trivial: state with >=1 deletion, an empty root or a leaf above row 0, stream >= 200 bytes.",
+    "assumptions": COMMON_ASSUME + ["on an error path the reported byte count is only required to lie between 0 and the bytes actually consumed / accepted (a partially delivered read or write may or may not be counted)",
+                                    "MapPollard streams follow Go map iteration order: streams are never compared byte for byte, only after parsing"],
+}
+MANIFEST_TEXT["C13"] = {
+    "level_text": "Fault enumeration per generated state: all reader chunkings of a fixed family, every truncation point (all prefixes for streams up to a size bound, "
+                  "both ends plus sampled windows beyond it) and every sink failure offset, each judged by a model-based and a differential (original vs restored) oracle. "
+                  "States themselves are sampled (unbounded).",
+    "design_ref": "DESIGN.md section 6 C13",
+    "level_note": TRUST,
+    "technique": "property-based state generation (rapid) + exhaustive fault injection (reader chunkings, truncation points, failing sinks); round-trip, model-based and differential oracles",
+}
+NOT_APPLICABLE[:] = [e for e in NOT_APPLICABLE if e["property_id"] not in CHECKS]
